@@ -69,9 +69,9 @@ def tlc_pairs(consts, work, workers=8, timeout=2400):
     return res
 
 
-def tlc_catalogue(consts, work):
-    p = os.path.join(work, 'cat-%s.cfg' % common.trace_hash(sorted((k, repr(v)) for k, v in consts.items())))
-    open(p, 'w').write(cfg_text(consts, 'GSpec', ['Emit']))
+def tlc_catalogue(consts, work, invalid=False):
+    p = os.path.join(work, 'cat-%s%s.cfg' % (common.trace_hash(sorted((k, repr(v)) for k, v in consts.items())), '-all' if invalid else ''))
+    open(p, 'w').write(cfg_text(consts, 'GSpec', ['EmitAll' if invalid else 'Emit']))
     r = common.run_tlc('KeyGen', p, workdir=work, workers=1, timeout=900, heap='4g')
     groups = []
     for m in re.finditer(r'<<"GROUP", "(.*)">>', r.out):
@@ -327,12 +327,18 @@ def extra_for_C01(rep, tier):
     # one tuple argument against the same values passed separately; a positional string equal to a keyword name
     for over in (dict(SigIds={4, 5, 28}, PVals={1, 2, 10}, KwNames={'z'}, MAXP=2, MAXK=1),
                  dict(SigIds={4, 5}, PVals={1, 7}, KwNames={'z'}, MAXP=1, MAXK=0),
+                 # a parameter given positionally AND by keyword (f(3, x=1)): Python rejects the call; so must the decorated function,
+                 # also after valid calls have left results behind
+                 dict(SigIds={1, 2, 26}, PVals={1, 2}, KwNames={'x', 'y'}, MAXP=2, MAXK=1, invalid=True),
                  dict(SigIds={28, 29}, PVals={1, 6}, KwNames={'x', 'z'}, MAXP=2, MAXK=1),
                  dict(SigIds={25, 28}, PVals={1, 2}, KwNames={'self', 'func', 'ignored'}, MAXP=1, MAXK=1)):
-        gx, stx = tlc_catalogue(dict(base_consts(tier, {0}), Deviations=set(), **over), work)
+        inv = over.pop('invalid', False)
+        gx, stx = tlc_catalogue(dict(base_consts(tier, {0}), Deviations=set(), **over), work, invalid=inv)
         cat_states += stx
         for g in gx:
             g['allkms'] = True
+            if inv:
+                g['plainonly'] = True
             if 'self' in over.get('KwNames', ()):
                 g['plainonly'] = True
             if over.get('shared'):
